@@ -242,6 +242,19 @@ CHECKS.update({
         design='DESIGN.md §4 C20', engine='worlds+refmodel+fsops'),
 })
 
+# legs added in the later waves of seeded changes (DESIGN.md §10.5); appended to the level text of the check
+ADDENDA = {
+    'C04': ' Also: a world with a task returning a data object of its own class, and a task whose data class can be created only inside run (inspection may answer or raise, it never runs anything).',
+    'C05': ' Values shrink from attempt to attempt (a leftover of an earlier attempt that is not truncated shows); runs ended by KeyboardInterrupt are among the faults.',
+    'C06': ' Rewrite leg: every ordered pair of groups of values that compare equal under == (1 / 1.0 / True, arrays equal in bytes but not in dtype or shape) or differ much in length is stored first / recomputed second at ONE storage location and loaded by a later chain.',
+    'C07': ' Also: Chain.force(recompute=True, delete_data=..) in which the run of one forced task fails (all DAGs <= 3 x named sets x failing task x {raise, interrupt}); store states left by a forced recomputation that died before each of its file operations, then force(delete_data=True); MultiChain.force with recompute on shared tasks; names given as str subclasses.',
+    'C10': ' Concurrent leg: lookups by two threads on one freshly built chain under a cooperative scheduler with SOURCE-LINE scheduling points in chain.py / task.py, every interleaving with <= 1 (quick) / <= 2 (thorough, first plan) preemptions; answers must equal the sequential ones. Second name universe with leading / trailing underscores and digits. Known finding K8 (one pipeline mounted twice with equal values).',
+    'C15': ' H11: one cache directory opened as a sub-cache of its parent and directly by path. H12: 2-3 threads on one InMemoryCache reaching the same sub-cache by name, source-line scheduling points in cache.py, preemption bound 2 (3).',
+    'C17': ' parallel_map over 16 kinds of iterables (arrays and frames with ambiguous or false truth value, lazily sized collections, views, iterators), both implementations, sequential and threaded path.',
+    'C18': ' Worlds include a resumable task that fails part-way and is retried, running totals recorded twice by one run (records are what was added, when it was added), runs ended by KeyboardInterrupt.',
+    'C20': ' Worlds include a config with an explicit name= and two parts of one file mounted under two namespaces; the source directory given as target under five spellings must be refused / left untouched.',
+}
+
 PENDING_REASON = 'check not built yet in this round (planned per DESIGN.md §4; technique applies)'
 
 
@@ -260,7 +273,7 @@ def manifest():
                 'evidence_file': f'/verif/evidence/{pid}.json',
                 'replay_cmd_template': f'{PY} -m tcv replay {{path}}',
                 'engine': c.get('engine', 'tcv'),
-                'level_claimed': {'category': 'model_checking', 'text': c['text'], 'design_ref': c['design']},
+                'level_claimed': {'category': 'model_checking', 'text': c['text'] + ADDENDA.get(pid, ''), 'design_ref': c['design']},
                 'level_note': c['note'],
                 'technique': c['technique'],
             })
@@ -287,7 +300,7 @@ def manifest():
 ENGINES = [
     {'name': 'procs', 'path': 'tcv/worker.py', 'serves_properties': ['C02'], 'kind_free_text': 'fresh-interpreter worker (chosen PYTHONHASHSEED) for real process boundaries'},
     {'name': 'fsops', 'path': 'tcv/fsops.py', 'serves_properties': ['C05', 'C20'], 'kind_free_text': 'file-system operation interposer: op log, in-situ crash injection, torn writes, tree-digest conformance'},
-    {'name': 'sched', 'path': 'tcv/sched.py', 'serves_properties': ['C15'], 'kind_free_text': 'cooperative scheduler (callers as threads or as forked processes) with lock/file interposition and preemption-bounded stateless DFS'},
+    {'name': 'sched', 'path': 'tcv/sched.py', 'serves_properties': ['C15', 'C10'], 'kind_free_text': 'cooperative scheduler (callers as threads or as forked processes) with lock/file interposition, optional source-line scheduling points, and preemption-bounded stateless DFS'},
     {'name': 'worlds', 'path': 'tcv/worlds.py, tcv/families.py', 'serves_properties': ['C01', 'C04'], 'kind_free_text': 'generated pipelines/configs/contexts with provenance terms, invocation log, fault plan'},
     {'name': 'refmodel', 'path': 'tcv/refmodel.py', 'serves_properties': ['C01', 'C04'], 'kind_free_text': 'independent reference semantics: mounts, precedence, edges, terms, frozen 1.4.0 key'},
     {'name': 'histories', 'path': 'tcv/histories.py', 'serves_properties': ['C01', 'C04'], 'kind_free_text': 'explicit-state BFS over operation histories with replay on fresh stores and canonical-state merging'},
